@@ -58,6 +58,40 @@ let show_out = function
 
 let is_panic_out = function OBytes Panic | OPos Panic -> true | _ -> false
 
+(* ---- writer histories: ops with pattern payloads, and the DEFLATE size oracle of the case
+   (isize:digest:cdata_len per data frame of the real output; the model's deflate returns that
+   many zero bytes: only frame sizes matter for positions, CDATA contents are C01's) *)
+exception Oracle_miss
+
+let parse_wops s =
+  if s = "_" then [] else
+  List.map (fun p ->
+    if p = "f" then OFlush else
+    let t = String.sub p 1 (String.length p - 1) in
+    match split_on ':' t with
+    | [l; a; m] ->
+        let data = pattern (int_of_string l) (int_of_string a) (int_of_string m) in
+        if p.[0] = 'W' then OWriteAll data else OWrite data
+    | _ -> failwith "wop") (split_on ',' s)
+
+let parse_sizes s =
+  if s = "_" then [] else
+  List.map (fun e -> match split_on ':' e with
+    | [i; h; c] -> (int_of_string i, int_of_string h, int_of_string c)
+    | _ -> failwith "sizes") (split_on ',' s)
+
+let deflate_of table = fun _lvl x ->
+  let l = List.length x in
+  let h = List.fold_left (fun h b -> mix h (int_of_n b)) 0 x in
+  match List.find_opt (fun (i, d, _) -> i = l && d = h) table with
+  | Some (_, _, c) -> List.init c (fun _ -> N0)
+  | None -> raise Oracle_miss
+
+let show_res0 f = function
+  | Ok0 a -> f a
+  | Err0 _ -> "Err"
+  | Panic0 -> "Panic"
+
 let handle kind a =
   match kind with
   | "hist" ->
@@ -72,6 +106,14 @@ let handle kind a =
         let parts = go [] steps in
         Some (if parts = [] then "_" else String.concat " " parts)
       end
+  | "wtm" ->
+      (try
+        let lvl = n_of_dec a.(0) and fin = (a.(1) = "finish") and ops = parse_wops a.(2)
+        and n = n_of_dec a.(3) and table = parse_sizes a.(4) in
+        let rows = wtell_run (deflate_of table) lvl ops fin n in
+        Some (String.concat " " (List.map (fun ((t, sk), rd) ->
+          show_res0 show_vp t ^ "=" ^ show_res show_vp sk ^ ">" ^ show_res canon_bytes rd) rows))
+      with Oracle_miss -> Some "deflate-oracle-miss")
   | "vp" ->
       let c1 = n_of_dec a.(0) and u1 = n_of_dec a.(1) and c2 = n_of_dec a.(2) and u2 = n_of_dec a.(3) in
       let pa = vpos_try_from c1 u1 and pb = vpos_try_from c2 u2 in
